@@ -16,7 +16,8 @@ def oracle(rng, tier):
     n = (10, 40, 10) if tier == 'quick' else (120, 150, 30)
     gf, gs = ob.gram_search(rng, *n)
     lf, le = ob.levy_search(rng, 20 if tier == 'quick' else 400)
-    return gf + lf, dict(gram=gs, levy_evals=le)
+    sf, ss = ob.seed_structure_search(rng, 2 if tier == 'quick' else 12)
+    return gf + lf + sf, dict(gram=gs, levy_evals=le, seed_structure=ss)
 
 
 def run(rep, tier, seed):
